@@ -15,7 +15,7 @@
 (* Host-type events: {"op":"host","hostkind":K,"want":T,"type":T',         *)
 (*  "value":S,"back":S'}: built from a host value of Go kind K.            *)
 (***************************************************************************)
-EXTENDS VariantHeap, Json, TLC
+EXTENDS VariantHeap, Json, TLC, Held
 VARIABLE l
 Trace == ndJsonDeserialize("trace.ndjson")
 F(ok, name) == IF ok THEN "" ELSE name \o "; "
@@ -65,7 +65,7 @@ Step ==
   /\ LET e == Trace[l] IN
      IF e.op = "host"
      THEN /\ UNCHANGED hvars
-          /\ LET f == HostFails(e) IN f = "" \/ PrintT("VERIF-FAIL " \o ToString(l) \o " " \o f)
+          /\ LET f == HostFails(e) IN Report(l, f, Trace[l])
      ELSE /\ Apply(e)
           /\ LET eqf == IF \E i \in 1 .. Len(e.obs.eq) : e.obs.eq[i][3] = "panic" THEN "equality failed (panic) instead of answering; "
                         ELSE IF \E i \in 1 .. Len(e.obs.eq) :
@@ -77,7 +77,7 @@ Step ==
                                                                     /\ e.obs.eq[i][3] # e.obs.eq[j][3]
                              THEN "equality is not symmetric; " ELSE ""
                  f == ObsFails(e.obs, vs', pads', mut') \o eqf
-             IN f = "" \/ PrintT("VERIF-FAIL " \o ToString(l) \o " " \o f)
+             IN Report(l, f, Trace[l])
 Spec == Init /\ [][Step]_<<l, vs, ls, pads, mut>>
 Accepted == TLCGet("stats").diameter - 1 = Len(Trace)
 =============================================================================
